@@ -532,4 +532,135 @@ theorem ui_sub_spec (w : Mpz) (uval : Nat) (v : Mpz) (hw : 1 ≤ w.alloc) (hv : 
   rw [if_pos hneg]
   simp only [Bool.false_eq_true, if_false]; omega
 
+/-! ## mpz_neg / mpz_abs / mpz_set -/
+
+theorem WF_zero (w : Mpz) (hw : 1 ≤ w.alloc) :
+    WF { w with size := 0, d := [] } ∧ toInt { w with size := 0, d := [] } = 0 :=
+  ⟨(WF_iff _).mpr ⟨hw, by simp, by simp, Norm_nil⟩, by simp [toInt]⟩
+
+theorem toInt_zero_of_size {u : Mpz} (hu : WF u) (h0 : u.size = 0) : toInt u = 0 := by
+  obtain ⟨_, _, hul, _⟩ := (WF_iff u).mp hu
+  have hd : u.d = [] := List.length_eq_zero_iff.mp (by rw [hul, h0]; rfl)
+  simp [toInt, hd]
+
+theorem neg_spec (same : Bool) (w u : Mpz) (hw : 1 ≤ w.alloc) (hu : WF u)
+    (hs : same = true → w = u) :
+    WF (neg same w u) ∧ toInt (neg same w u) = -toInt u := by
+  obtain ⟨hu1, hu2, hul, hun⟩ := (WF_iff u).mp hu
+  unfold neg
+  dsimp only
+  cases same
+  · simp only [Bool.not_false, if_true]
+    obtain ⟨ga1, ga2⟩ := grow_alloc w u.size.natAbs
+    exact ⟨(WF_iff _).mpr ⟨by dsimp only; omega, by dsimp only; omega, by dsimp only; omega, hun⟩,
+      by rw [toInt_eq, toInt_eq]; exact sval_neg _ _ hul⟩
+  · simp only [Bool.not_true, Bool.false_eq_true, if_false]
+    rw [hs rfl]
+    exact ⟨(WF_iff _).mpr ⟨hu1, by dsimp only; omega, by dsimp only; omega, hun⟩,
+      by rw [toInt_eq, toInt_eq]; exact sval_neg _ _ hul⟩
+
+theorem sval_natAbs (s : Int) (d : List Nat) : sval (s.natAbs : Int) d = ((sval s d).natAbs : Int) := by
+  unfold sval
+  have h1 : ¬ ((s.natAbs : Int) < 0) := by omega
+  rw [if_neg h1]
+  by_cases h : s < 0
+  · rw [if_pos h]; simp
+  · rw [if_neg h]; simp
+
+theorem abs_spec (same : Bool) (w u : Mpz) (hw : 1 ≤ w.alloc) (hu : WF u)
+    (hs : same = true → w = u) :
+    WF (abs same w u) ∧ toInt (abs same w u) = ((toInt u).natAbs : Int) := by
+  obtain ⟨hu1, hu2, hul, hun⟩ := (WF_iff u).mp hu
+  unfold abs
+  dsimp only
+  cases same
+  · simp only [Bool.not_false, if_true]
+    obtain ⟨ga1, ga2⟩ := grow_alloc w u.size.natAbs
+    exact ⟨(WF_iff _).mpr ⟨by dsimp only; omega, by dsimp only; omega, by dsimp only; omega, hun⟩,
+      by rw [toInt_eq, toInt_eq]; exact sval_natAbs _ _⟩
+  · simp only [Bool.not_true, Bool.false_eq_true, if_false]
+    rw [hs rfl]
+    exact ⟨(WF_iff _).mpr ⟨hu1, by dsimp only; omega, by dsimp only; omega, hun⟩,
+      by rw [toInt_eq, toInt_eq]; exact sval_natAbs _ _⟩
+
+theorem set_spec (w u : Mpz) (hw : 1 ≤ w.alloc) (hu : WF u) :
+    WF (set w u) ∧ toInt (set w u) = toInt u := by
+  obtain ⟨hu1, hu2, hul, hun⟩ := (WF_iff u).mp hu
+  obtain ⟨ga1, ga2⟩ := grow_alloc w u.size.natAbs
+  unfold set
+  exact ⟨(WF_iff _).mpr ⟨by dsimp only; omega, ga1, hul, hun⟩, rfl⟩
+
+/-! ## mpz_mul_2exp -/
+
+theorem B_pow (k : Nat) : B ^ k = 2 ^ (64 * k) := by unfold B; rw [← pow_mul]
+
+theorem mul_2exp_hi_spec (d : List Nat) (c : Nat) (hd : Norm d) (hne : d ≠ []) (hc : c < 64) :
+    val (mul_2exp_hi d c) = val d * 2 ^ c ∧ Norm (mul_2exp_hi d c) ∧ mul_2exp_hi d c ≠ [] ∧
+    (mul_2exp_hi d c).length ≤ d.length + 1 := by
+  unfold mul_2exp_hi
+  by_cases h0 : c = 0
+  · subst h0; simp [hd, hne]
+  · have hb : (c != 0) = true := by simp [h0]
+    rw [if_pos hb]
+    dsimp only
+    obtain ⟨lv, lc, ll, ln⟩ := K.lshift_val d c hd.1 (by omega) (by omega)
+    have hcB : (lshift d c).2 < B := by
+      have : 2 ^ c < 2 ^ 64 := Nat.pow_lt_pow_right (by norm_num) hc
+      unfold B; omega
+    have hr_ne : (lshift d c).1 ≠ [] := by
+      intro h; rw [h] at ln; exact hne (List.length_eq_zero_iff.mp ln.symm)
+    by_cases hz : (lshift d c).2 = 0
+    · have hb2 : ((lshift d c).2 != 0) = false := by simp [hz]
+      rw [hb2]
+      simp only [Bool.false_eq_true, if_false]
+      rw [hz] at lv
+      have hlow := hd.lower hne
+      have h2 : 1 ≤ 2 ^ c := Nat.one_le_two_pow
+      refine ⟨by omega, Norm.of_lower ll (Or.inr ?_), hr_ne, by omega⟩
+      rw [ln]
+      have : val d * 1 ≤ val d * 2 ^ c := Nat.mul_le_mul_left _ h2
+      omega
+    · have hb2 : ((lshift d c).2 != 0) = true := by simp [hz]
+      rw [hb2]
+      simp only [if_true]
+      refine ⟨by rw [val_append, ln]; simpa using lv,
+        ⟨Limbs_append.mpr ⟨ll, Limbs_cons.mpr ⟨hcB, Limbs_nil⟩⟩, by simp [hz]⟩, by simp, by simp [ln]⟩
+
+theorem mul_2exp_spec (w u : Mpz) (cnt : Nat) (hw : 1 ≤ w.alloc) (hu : WF u) :
+    WF (mul_2exp w u cnt) ∧ toInt (mul_2exp w u cnt) = toInt u * 2 ^ cnt := by
+  obtain ⟨_, _, hul, hun⟩ := (WF_iff u).mp hu
+  unfold mul_2exp
+  dsimp only
+  by_cases h0 : (u.size == 0) = true
+  · rw [if_pos h0]
+    have h0' : u.size = 0 := by simpa using h0
+    obtain ⟨wf, ti⟩ := WF_zero w hw
+    exact ⟨wf, by rw [ti, toInt_zero_of_size hu h0']; simp⟩
+  rw [if_neg h0]
+  have hn0 : u.size ≠ 0 := by simpa using h0
+  have hne : u.d ≠ [] := by intro h; rw [h] at hul; simp at hul; omega
+  obtain ⟨ga1, ga2⟩ := grow_alloc w (u.size.natAbs + cnt / 64 + 1)
+  obtain ⟨hv, hn, hhne, hlen⟩ := mul_2exp_hi_spec u.d (cnt % 64) hun hne (Nat.mod_lt _ (by norm_num))
+  generalize mul_2exp_hi u.d (cnt % 64) = hi at *
+  have hnorm : Norm (List.replicate (cnt / 64) 0 ++ hi) := by
+    refine ⟨Limbs_append.mpr ⟨Limbs_replicate_zero _, hn.1⟩, ?_⟩
+    rw [List.getLast?_append]
+    have : hi.getLast? ≠ none := by simpa using hhne
+    cases hg : hi.getLast? with
+    | none => exact absurd hg this
+    | some x => simpa [hg] using hn.2
+  obtain ⟨wf, ti⟩ := mk_spec (grow w (u.size.natAbs + cnt / 64 + 1)).alloc _ (decide (u.size < 0)) _ rfl
+    hnorm (by simp; omega) (by omega)
+  refine ⟨wf, ?_⟩
+  rw [ti, val_append, val_replicate_zero, List.length_replicate, hv, B_pow, toInt_eq u]
+  have hsplit : (2 : Nat) ^ cnt = 2 ^ (64 * (cnt / 64)) * 2 ^ (cnt % 64) := by
+    rw [← pow_add, Nat.div_add_mod]
+  have key : 0 + 2 ^ (64 * (cnt / 64)) * (val u.d * 2 ^ (cnt % 64)) = val u.d * 2 ^ cnt := by
+    rw [hsplit]; ring
+  rw [key]
+  unfold sval
+  by_cases hs : u.size < 0
+  · simp only [hs, decide_true, if_true]; push_cast; ring
+  · simp only [hs, decide_false, Bool.false_eq_true, if_false]; push_cast; ring
+
 end Mpir.Mpz
